@@ -1638,3 +1638,68 @@ def np_size(interp, a, *k):
     if isinstance(a, SArr):
         return a.size
     return np.size(a, *k)
+
+
+# ----------------------------------------------------------------------------
+# chunked strings, regular expressions, datetimes
+import datetime as _datetime
+import re as _re
+from . import strsym as _strsym
+from . import timesym as _timesym
+
+_MODELS[_datetime.datetime] = _timesym.datetime_model
+_MODELS[_datetime.timedelta] = _timesym.timedelta_model
+
+
+def builtin_method_hook(interp, f, args, kwargs):
+    """bound builtin methods that need a model when symbolic values are involved"""
+    slf = getattr(f, "__self__", None)
+    name = getattr(f, "__name__", "")
+    if interp.concrete:
+        return NOHOOK
+    if isinstance(slf, str) and not isinstance(slf, type) and name == "format" and (deep_sym(args) or deep_sym(kwargs)):
+        return _strsym.str_format(interp, slf, args, kwargs)
+    if isinstance(slf, _re.Pattern) and name in ("match", "fullmatch", "search") and deep_sym(args):
+        return _strsym.regex_call(interp, slf, name, *args)
+    if isinstance(slf, str) and not isinstance(slf, type) and name == "join" and args and deep_sym(list(args[0]) if isinstance(args[0], (list, tuple)) else args[0]):
+        parts = list(args[0])
+        out = []
+        for k, p in enumerate(parts):
+            if k:
+                out.append(slf)
+            out.append(p)
+        return _strsym.SStr(out)
+    return NOHOOK
+
+
+@model(builtins.str)
+def py_str(interp, x=""):
+    if isinstance(x, _strsym.SStr):
+        return x
+    if isinstance(x, Sym):
+        return _strsym.str_of_int(interp, x)
+    return str(x)
+
+
+_old_py_int = py_int
+
+
+@model(builtins.int)
+def py_int2(interp, x=0, *a):
+    if isinstance(x, _strsym.SStr):
+        return _strsym.int_of(interp, x)
+    return _old_py_int(interp, x, *a)
+
+
+_old_isinstance = py_isinstance
+
+
+@model(builtins.isinstance)
+def py_isinstance2(interp, obj, cls):
+    if isinstance(obj, _timesym.SDateTime):
+        return isinstance(_datetime.datetime(2000, 1, 1), cls)
+    if isinstance(obj, _timesym.STimedelta):
+        return isinstance(_datetime.timedelta(0), cls)
+    if isinstance(obj, _strsym.SStr):
+        return isinstance("", cls)
+    return _old_isinstance(interp, obj, cls)
